@@ -1,3 +1,7 @@
-import sys
+import os, sys
+if os.environ.get("PYTHONHASHSEED") != "0":
+    # string hashing decides the iteration order of sets, hence the order of assertions handed to the solvers; E-matching is
+    # sensitive to that order (same query: 0.1 s or 8 s).  A fixed hash seed makes a run reproduce: same tree, same queries.
+    os.execve(sys.executable, [sys.executable, "-m", "hv"] + sys.argv[1:], dict(os.environ, PYTHONHASHSEED="0"))
 from .cli import main
 sys.exit(main())
